@@ -105,6 +105,8 @@ func (c *Client) handleSearch() error {
 		var num uint32
 		if !c.dec.ExpectNumber(&num) {
 			return c.dec.Err()
+		} else if num == 0 {
+			return fmt.Errorf("in mailbox-data: invalid message number 0 in SEARCH response")
 		}
 		if cmd != nil {
 			switch all := cmd.data.All.(type) {
